@@ -317,8 +317,64 @@ func c05(c *Ctx) {
 		r.Check("split:line-excludes-newline", okLine, hd.Pos(), "line = msg[:idx]")
 		r.Check("split:rest-after-newline", okRest, hd.Pos(), "msg = msg[idx+1:]")
 		// the line handed to parseLine is the split line
-		lp, ok := pc.Call.Args[2].(*ssa.Phi)
-		r.Check("split:parse-the-line", ok && lp.Comment == "line", pc.Pos(), "parseLine receives the current line")
+		// every value that can reach parseLine's line argument is the remaining datagram itself or a prefix of it
+		okLineArg := true
+		var leaves func(v ssa.Value, d int)
+		seenPhi := map[*ssa.Phi]bool{}
+		fromMsg := func(v ssa.Value) bool {
+			for i := 0; i < 8; i++ {
+				switch x := v.(type) {
+				case *ssa.Parameter:
+					return x.Name() == "msg"
+				case *ssa.Phi:
+					return x.Comment == "msg" || strings.HasPrefix(x.Comment, "msg__")
+				case *ssa.Slice:
+					v = x.X
+				case *ssa.ChangeType:
+					v = x.X
+				default:
+					return false
+				}
+			}
+			return false
+		}
+		leaves = func(v ssa.Value, d int) {
+			if d > 8 {
+				okLineArg = false
+				return
+			}
+			switch x := v.(type) {
+			case *ssa.Phi:
+				if x.Comment == "msg" {
+					return
+				}
+				if seenPhi[x] {
+					return
+				}
+				seenPhi[x] = true
+				for _, e := range x.Edges {
+					leaves(e, d+1)
+				}
+			case *ssa.Slice:
+				if x.Low != nil || !fromMsg(x.X) {
+					okLineArg = false
+				}
+			case *ssa.Const:
+				if x.Value != nil {
+					okLineArg = false
+				}
+			case *ssa.ChangeType:
+				leaves(x.X, d+1)
+			case *ssa.Parameter:
+				if x.Name() != "msg" {
+					okLineArg = false
+				}
+			default:
+				okLineArg = false
+			}
+		}
+		leaves(pc.Call.Args[2], 0)
+		r.Check("split:parse-the-line", okLineArg, pc.Pos(), "parseLine receives the rest of the datagram or a prefix of it (up to the newline): "+pathOf(pc.Call.Args[2]))
 		// parseLine passes the line and namespace straight to Lexer.Run
 		pf := w.Func("pkg/statsd", "(*DatagramParser).parseLine")
 		if pf != nil {
